@@ -187,6 +187,52 @@ def protobufsStep : LoopStep := fun b =>
         else if (raw.take len).head? = some 8 then some (raw.drop len)
         else none
 
+/-! ### HTTP with a signed Content-Length (`int()` accepts "-5"; slices then count from the end) -/
+
+structure HttpParamsZ where
+  /-- `int(msg_headers.get("Content-Length", 0))`; `none` = building the header dict or `int()` raised -/
+  clen : Bytes → Option Int
+  lineOk : Bytes → Bool
+
+/-- `body[cl:]` as Python slices it: a negative `cl` counts from the end and is clamped to the start -/
+def sliceFrom (body : Bytes) (cl : Int) : Bytes :=
+  if 0 ≤ cl then body.drop cl.toNat else body.drop (body.length - Nat.min cl.natAbs body.length)
+
+/-- `body[0:cl]` -/
+def sliceTo (body : Bytes) (cl : Int) : Bytes :=
+  if 0 ≤ cl then body.take cl.toNat else body.take (body.length - Nat.min cl.natAbs body.length)
+
+/-- one iteration of an HTTP receive loop (`_parse_http_message` + first-line check) for ANY integer the
+    Content-Length header may hold: the header block and its separator are always consumed -/
+def httpZ (P : HttpParamsZ) : Framer (Bytes × Bytes) := ⟨fun b =>
+  if b.isEmpty then .need
+  else match C02.splitSep b with
+    | none => .need
+    | some (hdr, body) =>
+      match P.clen hdr with
+      | none => .err .malformed
+      | some cl =>
+        if (body.length : Int) < cl then .need                       -- `if len(body) < content_length`
+        else if P.lineOk hdr then .msg (hdr, sliceTo body cl) (sliceFrom body cl)
+        else .err .malformed⟩
+
+/-! ### RAOP control port: `ControlClient.datagram_received` -/
+
+/-- rounds of the loop in `_retransmit_lost_packets` for one datagram: `none` = the handler raises
+    (`data[1]` IndexError, `struct.error` for a retransmit request that is not 8 bytes long);
+    other packet types are ignored -/
+def controlRounds (data : Bytes) : Option Nat :=
+  match data with
+  | _ :: t :: _ =>
+    if t.toNat &&& 0x7F = 0x55 then
+      (if data.length = 8 then some (C02.be ((data.drop 6).take 2)) else none)
+    else some 0
+  | _ => none
+
+/-- the sequence numbers looked up: `(lost_seqno + i) % 2**16` for `i in range(lost_packets)` -/
+def retransmitSeqs (lostSeqno lostPackets : Nat) : List Nat :=
+  (List.range lostPackets).map fun i => (lostSeqno + i) % 65536
+
 /-! ### `int(s, 16)` on a TXT value (ASCII input; the harness keeps to ASCII) -/
 
 def hexDigitVal (c : UInt8) : Option Nat :=
